@@ -18,6 +18,11 @@ def gen_case(ctx, g):
     if r.random() < 0.25 and B:      # ragged B: a record lacking a key field -> runtime error naming the B record
         i = r.randrange(len(B))
         B[i] = B[i][:r.randint(0, len(B[i]))]
+    if r.random() < 0.2 and len(B) >= 2:
+        # ragged B whose FIRST record is not the widest (every key field still there): the all-None record of LEFT JOIN is as wide as
+        # the WIDEST join record, wherever it stands (seeded change C04-2: width taken from the first record)
+        i = r.randrange(1, len(B))
+        B[i] = B[i] + [r.choice(KEYS) for _ in range(r.randint(1, 2))]
     if r.random() < 0.2 and A:
         i = r.randrange(len(A))
         A[i] = A[i][:r.randint(0, len(A[i]))]
@@ -45,7 +50,59 @@ def gen_case(ctx, g):
         cx2 = dict(cx, update=True)
         qa['kind'] = ('update', [(r.randint(0, na - 1), g.str_expr(cx2, 1) if r.random() < 0.6 else ('fld', 'b', r.randint(0, nb - 1)))])
         qa['update_set'] = r.random() < 0.5
-    return ec.make_case(r, qa, A, B, also_table=True, tags=tags)
+    hdrA = hdrB = None
+    also_table = True
+    if r.random() < 0.3:
+        # both tables with a HEADER (column names change nothing in aN / bN queries but one thing: after build() the engines raise
+        # max_record_len to the number of join column names, so the all-None record of LEFT JOIN has one field per join column -
+        # fix c71773a, finding D27; model: Join.widen). The join header is as wide as the join records or wider; and the join
+        # table with a header and NO records is drawn on purpose
+        if r.random() < 0.3:
+            B = []
+        if r.random() < 0.5 and qa['kind'][0] == 'select' and shape < 0.45:
+            join['kind'], join['spelling'] = 'left', r.choice(['left join', 'left outer join'])
+            qa['kind'] = ('select', [('expr', ('fld', 'a', 0))] + r.sample([('starb',), ('star',), ('expr', ('fld', 'b', r.randint(0, nb + 1))), ('expr', ('bNF',))], r.randint(1, 3)))
+            A = [x if x else ['1'] for x in A]
+        # query_table wants a header exactly as wide as the FIRST record of a non-empty table ("List of column names and table records
+        # have different lengths" otherwise); rbql.query over a caller's iterator does not: a wider join header goes through that leg only
+        wide = r.choice([0, 0, 0, 1, 2])
+        if A and not A[0]:
+            A[0] = ['1']
+        if B and not B[0]:
+            B[0] = ['1']
+        hdrA = ['ha%d' % (i + 1) for i in range(len(A[0]) if A else na)]
+        hdrB = ['hb%d' % (i + 1) for i in range((len(B[0]) if B else nb) + wide)]
+        also_table = not (B and wide)
+        join['hw'] = len(hdrB)
+        tags.append('headers')
+    c = ec.make_case(r, qa, A, B, hdrA=hdrA, hdrB=hdrB, also_table=also_table, tags=tags)
+    if hdrB is not None:
+        # with a header `a.NR` / `b.NR` name a COLUMN called NR (observation O33, DESIGN 11.1): the record number is spelled NR / aNR / bNR here
+        c['q'] = c['q'].replace('a.NR', 'aNR').replace('b.NR', 'bNR')
+    return c
+
+
+def header_only_cases(ctx):
+    """bounded enumeration for finding D27: LEFT / INNER / STRICT LEFT JOIN against a join table that has a header of 1-3 names and
+    0-2 records no wider than the header, x select lists over b.* / * / bN / bNF"""
+    out = []
+    brows = [[], [['1', 'p']], [['2']], [['1', 'p'], ['1']], [['1', 'p', 'q']]]
+    lists = [[('expr', ('fld', 'a', 0)), ('starb',)], [('star',)], [('expr', ('fld', 'b', 0)), ('expr', ('fld', 'b', 1))], [('starb',), ('expr', ('bNF',)), ('expr', ('bNR',))],
+             [('expr', ('fld', 'b', 2))]]
+    for kind, sp in (('inner', 'join'), ('left', 'left join'), ('left', 'left outer join'), ('strict', 'strict left join')):
+        for hw in (None, 1, 2, 3):
+            for B in brows:
+                if hw is not None and any(len(x) > hw for x in B):
+                    continue
+                for items in lists:
+                    for A in ([['1']], [['1'], ['2']], []):
+                        qa = {'join': {'kind': kind, 'spelling': sp, 'lhs': [0], 'rhs': [0]}, 'where': None, 'kind': ('select', list(items))}
+                        if hw is not None:
+                            qa['join']['hw'] = hw
+                        out.append(ec.make_case(None, qa, [list(x) for x in A], [list(x) for x in B], hdrA=None if hw is None else ['ha1'],
+                                                hdrB=None if hw is None else ['hb%d' % (i + 1) for i in range(hw)],
+                                                also_table=(hw is None or not B or len(B[0]) == hw), tags=['headers']))      # (query_table: header as wide as the first record)
+    return out
 
 
 def exhaustive_cases(ctx, limit):
@@ -81,10 +138,19 @@ def run(ctx):
     n = 4000 if ctx.tier == 'quick' else 500000
     cases = [gen_case(ctx, g) for _ in range(n)]
     cases += exhaustive_cases(ctx, 2500 if ctx.tier == 'quick' else None)
+    cases += header_only_cases(ctx)
     ctx.rule = ('pairs of tables (empty, duplicate keys, ragged A and B) x all five join spellings x 1-3 key pairs (== or =, either side order, NR/aNR/a.NR and bNR/b.NR) '
+                'x {no headers, headers on both tables with a join header as wide as the join records or wider, incl. the join table with a header and NO records (D27)} '
                 'x downstream shapes: select lists with star/b.*/UNNEST, ORDER BY + DISTINCT + TOP, GROUP BY aggregates, UPDATE; bounded enumeration over A,B <= 2 rows (%s); '
                 'non-trivial = distinct case with >= 1 output row or an error') % ('sampled' if ctx.tier == 'quick' else 'complete')
     exp, got = ec.evaluate(ctx, cases, THEOREM)
+    for c, e in zip(cases, exp):
+        if e is not None and c.get('hdrB') is not None and c['qa']['join']['kind'] == 'left':
+            ctx.stat('left_join_with_header')
+            if not c['B']:
+                ctx.stat('left_join_header_only_table')
+            if any(x[0] == 'W' for x in e['events']) and max([len(x) for x in c['B']] + [0]) < len(c['hdrB']):
+                ctx.stat('left_join_header_wider_than_records_rows_written')
     for c, e, g_ in list(zip(cases, exp, got))[:3]:
         ctx.sample({'query': c['q'], 'A': c['A'], 'B': c['B'], 'model': e, 'implementation': {k2: g_.get(k2) for k2 in ('events', 'pulls', 'error')} if isinstance(g_, dict) else g_})
     # rbql-js/rbql.js is an anchor of this property too: the JavaScript leg runs language-neutral queries of this shape through rbql-js
